@@ -49,7 +49,7 @@ Cards(k) ==
     [] k \in {"kx","ky","kz","k/x","k/y","k/z"} -> ConeCards(k)
     [] k = "sq" -> { Card(k, <<a, b, c, dd, 0, e, g, x, 0, z>>, 1)
                      : a \in {1, 2}, b \in {0, 1}, c \in {-1, 1}, dd \in {0, 1}, e \in {0, -1},
-                       g \in {-4, -1, 2}, x \in C0, z \in {0, 1} }
+                       g \in {-4, -1, 0, 2}, x \in C0, z \in {0, 1} }
     [] k = "gq" -> { Card(k, <<a, b, c, dd, e, 0, g, 0, j, kk>>, 1)
                      : a \in {1, 2}, b \in {-1, 0, 1}, c \in {0, 1}, dd \in {0, 1}, e \in {0, -1},
                        g \in {0, 2}, j \in {-1, 0}, kk \in {-4, -1, 3} }
